@@ -215,6 +215,19 @@ def _write(path, content_obj):
     """replace the file and give it stat fields no earlier state of the path had"""
     data = GARBAGE if "garbage" in content_obj else content_obj["content"].encode("utf-8")
     _COUNTER[0] += 1
+    if content_obj.get("keep_stat") and os.path.exists(path) and os.path.getsize(path) == len(data):
+        # a change that leaves inode, size and mtime as they were (restore, `touch -r`): only ctime tells
+        import time as _time
+        st = os.stat(path)
+        with open(path, "r+b") as f:
+            f.write(data)
+        os.utime(path, ns=(st.st_atime_ns, st.st_mtime_ns))
+        for _ in range(200):
+            if os.stat(path).st_ctime_ns != st.st_ctime_ns:
+                break
+            _time.sleep(0.002)
+            os.utime(path, ns=(st.st_atime_ns, st.st_mtime_ns))
+        return
     if _COUNTER[0] % 2:
         tmp = path + ".new"                 # new inode (editor style: write + rename)
         with open(tmp, "wb") as f:
@@ -646,6 +659,14 @@ def gen_history_case(rng, style="random"):
         elif k < 0.96:
             steps.append(["write", {"garbage": True}])
             content = None
+        elif k < 0.98 and content:
+            # same length, one letter or digit changed, written in place with the old mtime restored
+            idx = [i for i, ch in enumerate(content) if ch.isascii() and ch.isalnum()]
+            if idx:
+                i = rng.choice(idx)
+                ch = rng.choice([c for c in "abcxyz0189" if c != content[i]])
+                content = content[:i] + ch + content[i + 1:]
+                steps.append(["write", {"content": content, "keep_stat": True}])
         else:
             content = join_lines(rng, cur)
             steps.append(["write", {"content": content}])     # same lines again (maybe other EOLs)
